@@ -35,6 +35,10 @@ type Case struct {
 	Register     []string   `json:"register,omitempty"` // object types bound with RegisterType
 	Faults       []hx.Fault `json:"faults,omitempty"`
 	Echo         bool       `json:"echo,omitempty"`
+	// LateJoin: memberships the schema gets only after the root has been used - "T implements I" or
+	// "U = T": the first load leaves them out, the request is resolved once (response not looked at),
+	// then the extension arrives. (If the schema without them is refused, they are there from the start.)
+	LateJoin []string `json:"late_join,omitempty"`
 	// Scribble: every resolver overwrites the arguments it was given once it has its value
 	Scribble bool `json:"scribble,omitempty"`
 	// Universe: reflection nodes are instances of the fixed Go types of universe.go instead of
@@ -122,6 +126,8 @@ type Call struct {
 // World is a ggql root wired to fixtures serving the case's graph.
 type World struct {
 	kept            *ggql.Executable // the parsed request (KeepParsed)
+	lateExts        []string         // extensions still to be applied (LateJoin)
+	LateJoined      bool             // ... they were applied, after a first use of the root
 	hiddenHandedOut int64
 	C               *Case
 	Root            *ggql.Root
@@ -713,21 +719,35 @@ func NewWorld(c *Case) (*World, error) {
 			}
 		}
 	}
-	w.Root = ggql.NewRoot(w.nodeValue(g.Root))
-	if c.AnyInstalled {
-		w.Root.AnyResolver = &anyRes{w: w}
-	}
-	built := false
-	if c.ViaAPI {
-		err, usable := hx.BuildAPI(w.Root, c.Schema, hx.BuildOpts{NoInterfaceRoot: true})
-		if usable && err != nil {
-			return nil, fmt.Errorf("schema built with the Go API rejected: %w\n%s", err, c.Schema.SDL(hx.SDLOpts{}))
+	load := func(sch *hx.Schema) error {
+		w.Root = ggql.NewRoot(w.nodeValue(g.Root))
+		if c.AnyInstalled {
+			w.Root.AnyResolver = &anyRes{w: w}
 		}
-		built = usable
+		built := false
+		if c.ViaAPI {
+			err, usable := hx.BuildAPI(w.Root, sch, hx.BuildOpts{NoInterfaceRoot: true})
+			if usable && err != nil {
+				return fmt.Errorf("schema built with the Go API rejected: %w\n%s", err, sch.SDL(hx.SDLOpts{}))
+			}
+			built = usable
+		}
+		if !built {
+			if err := w.Root.ParseString(sch.SDL(hx.SDLOpts{})); err != nil {
+				return fmt.Errorf("schema rejected: %w\n%s", err, sch.SDL(hx.SDLOpts{}))
+			}
+		}
+		return nil
 	}
-	if !built {
-		if err := w.Root.ParseString(c.Schema.SDL(hx.SDLOpts{})); err != nil {
-			return nil, fmt.Errorf("schema rejected: %w\n%s", err, c.Schema.SDL(hx.SDLOpts{}))
+	if len(c.LateJoin) > 0 {
+		first, exts := withoutJoins(c.Schema, c.LateJoin)
+		if err := load(first); err == nil {
+			w.lateExts = exts
+		}
+	}
+	if w.lateExts == nil {
+		if err := load(c.Schema); err != nil {
+			return nil, err
 		}
 	}
 	if c.DepthAfter > 0 {
@@ -788,7 +808,7 @@ func NewWorld(c *Case) (*World, error) {
 				return nil, fmt.Errorf("RegisterField(%s, %s): %w", k, goName, err)
 			}
 		}
-		return w, nil
+		return w, w.lateJoin()
 	}
 	for _, tn := range c.Register {
 		for _, n := range g.Nodes {
@@ -802,7 +822,72 @@ func NewWorld(c *Case) (*World, error) {
 			}
 		}
 	}
-	return w, nil
+	return w, w.lateJoin()
+}
+
+// withoutJoins returns the schema minus the listed memberships and the extensions that add them.
+func withoutJoins(s *hx.Schema, joins []string) (*hx.Schema, []string) {
+	cp := *s
+	cp.Types = append([]*hx.TypeDef{}, s.Types...)
+	drop := func(l []string, x string) []string {
+		var out []string
+		for _, e := range l {
+			if e != x {
+				out = append(out, e)
+			}
+		}
+		return out
+	}
+	var exts []string
+	for _, j := range joins {
+		if parts := strings.SplitN(j, " implements ", 2); len(parts) == 2 {
+			for i, td := range cp.Types {
+				if td.Name == parts[0] && td.Kind == hx.KObject {
+					c2 := *td
+					c2.Interfaces = drop(td.Interfaces, parts[1])
+					cp.Types[i] = &c2
+					exts = append(exts, "extend type "+parts[0]+" implements "+parts[1]+" {}")
+				}
+			}
+		} else if parts := strings.SplitN(j, " = ", 2); len(parts) == 2 {
+			for i, td := range cp.Types {
+				if td.Name == parts[0] && td.Kind == hx.KUnion && len(td.Members) > 1 {
+					c2 := *td
+					c2.Members = drop(td.Members, parts[1])
+					cp.Types[i] = &c2
+					exts = append(exts, "extend union "+parts[0]+" = "+parts[1])
+				}
+			}
+		}
+	}
+	return &cp, exts
+}
+
+// LateJoinedWorlds counts the worlds whose memberships arrived after a first use.
+var LateJoinedWorlds int64
+
+// lateJoin: the root is used once with the schema as first loaded, then the memberships arrive.
+func (w *World) lateJoin() error {
+	if len(w.lateExts) == 0 {
+		return nil
+	}
+	func() {
+		defer func() { _ = recover() }()
+		text := w.C.Text
+		if text == "" {
+			text = w.C.Doc.Render(w.C.Layout).Text
+		}
+		_ = w.Root.ResolveString(text, w.C.Op, w.C.GoVars())
+	}()
+	w.ResetCalls()
+	for _, ext := range w.lateExts {
+		if err := w.Root.ParseString(ext); err != nil {
+			return fmt.Errorf("late membership %q refused: %w", ext, err)
+		}
+	}
+	w.LateJoined = true
+	atomic.AddInt64(&LateJoinedWorlds, 1)
+	return nil
 }
 
 // Resolve runs the case's request.
